@@ -64,3 +64,7 @@ package util
 //@ func (Uint256).Compare
 //@ ensures[eq] (result == 0) == forall(i, 0, 32, u[i] == other[i])
 //@ ensures[lt] (result < 0) == exists(k, 0, 32, forall(j, 0, k, u[j] == other[j]) && u[k] < other[k])
+
+// String forms: only purity (no memory visible to the caller is written) is stated.
+//@ func (Uint256).StringBE
+//@ func (Uint160).StringBE
